@@ -317,7 +317,9 @@ pub fn gen(rng: &mut Rng, focus: Focus) -> ClientScn {
         kill_dispatch_at,
         peer_eof_at,
         preempt_permille: if subscriber != 0 || long { 0 } else { *rng.pick(&[0u32, 0, 60, 250]) },
-        spurious_permille: 0,
+        // a legal executor may poll a task that was not woken; never for the deadline/shutdown
+        // focused runs, where strict wake-only scheduling is what exposes lost wake-ups
+        spurious_permille: if focus == Focus::General && subscriber == 0 && rng.chance(120) { 100 } else { 0 },
         subscriber,
         long,
     }
